@@ -590,28 +590,22 @@ func (it *Interp) mutexLock(fr *frame, p *Value, write bool) {
 		panic(targetPanic{implicit: "invalid memory address or nil pointer dereference (nil mutex)"})
 	}
 	tab := it.mutexTable()
-	for {
-		st := tab[p]
-		if st == nil {
-			st = &mutexState{}
-			tab[p] = st
-		}
-		free := !st.writer && (st.readers == 0 || !write)
-		if free {
-			if write {
-				st.writer = true
-				st.owner = fr.g
-			} else {
-				st.readers++
-			}
-			if it.lockLog != nil {
-				it.lockLog.lock(fr, p)
-			}
-			return
-		}
-		if !it.blockOn(fr, "mutex") {
-			panic(targetPanic{implicit: "all goroutines are asleep - deadlock! (mutex already held)"})
-		}
+	st := tab[p]
+	if st == nil {
+		st = &mutexState{}
+		tab[p] = st
+	}
+	it.yieldPoint(fr, "lock")
+	free := func() bool { return !st.writer && (st.readers == 0 || !write) }
+	it.blockUntil(fr, "mutex", free)
+	if write {
+		st.writer = true
+		st.owner = fr.g
+	} else {
+		st.readers++
+	}
+	if it.lockLog != nil {
+		it.lockLog.lock(fr, p)
 	}
 }
 
@@ -706,4 +700,57 @@ func (it *Interp) clockTerm() *Term {
 		it.mstate.lastNow = mkInt(63900000000)
 	}
 	return it.mstate.lastNow
+}
+
+// ---- sync.WaitGroup (counter kept in an engine-side table)
+
+func (it *Interp) wgTable() map[*Value]*int {
+	m, ok := it.mstate.perPath["wg"].(map[*Value]*int)
+	if !ok {
+		m = map[*Value]*int{}
+		it.mstate.perPath["wg"] = m
+	}
+	return m
+}
+
+func init() {
+	reg("(*sync.WaitGroup).Add", func(it *Interp, fr *frame, fn *ssa.Function, args []Value) Value {
+		it.impure("waitgroup")
+		p := args[0].(*Value)
+		tab := it.wgTable()
+		if tab[p] == nil {
+			tab[p] = new(int)
+		}
+		*tab[p] += int(it.concreteInt(args[1], "WaitGroup.Add"))
+		if *tab[p] < 0 {
+			panic(targetPanic{implicit: "sync: negative WaitGroup counter"})
+		}
+		it.yieldPoint(fr, "wg.add")
+		return nil
+	})
+	reg("(*sync.WaitGroup).Done", func(it *Interp, fr *frame, fn *ssa.Function, args []Value) Value {
+		it.impure("waitgroup")
+		p := args[0].(*Value)
+		tab := it.wgTable()
+		if tab[p] == nil {
+			tab[p] = new(int)
+		}
+		*tab[p]--
+		if *tab[p] < 0 {
+			panic(targetPanic{implicit: "sync: negative WaitGroup counter"})
+		}
+		it.yieldPoint(fr, "wg.done")
+		return nil
+	})
+	reg("(*sync.WaitGroup).Wait", func(it *Interp, fr *frame, fn *ssa.Function, args []Value) Value {
+		it.impure("waitgroup")
+		p := args[0].(*Value)
+		tab := it.wgTable()
+		if tab[p] == nil {
+			tab[p] = new(int)
+		}
+		c := tab[p]
+		it.blockUntil(fr, "WaitGroup.Wait", func() bool { return *c == 0 })
+		return nil
+	})
 }
